@@ -83,3 +83,77 @@ theorem inv_foldl (ps : List (String × String)) : ∀ s, Inv s → Inv (ps.fold
 theorem inv_run (ps : List (String × String)) : Inv (run ps) := inv_foldl ps _ inv_init
 
 end Pyc.DirectTex
+
+namespace Pyc.DirectTex
+
+/-- every sampler in scope has its surface among the parameters -/
+def Paired (s : St) : Prop := ∀ im u, s.scope.get (.samp im) = some u → ∃ v, (PId.surf im, v) ∈ s.params
+
+theorem paired_init : Paired init := by intro im u h; simp [init, Scope.get] at h
+
+theorem paired_step (s : St) (p : String × String) (h : Paired s) : Paired (step s p) := by
+  unfold step
+  cases hg : s.scope.get (.samp p.2) with
+  | some u => exact h
+  | none =>
+    intro im u hu
+    simp only [Scope.get] at hu
+    by_cases e : p.2 = im
+    · subst e; exact ⟨s.next, by simp⟩
+    · have n1 : ¬ (PId.samp p.2 = PId.samp im) := by intro e'; cases e'; exact e rfl
+      have n2 : ¬ (PId.surf p.2 = PId.samp im) := by intro e'; cases e'
+      simp only [n1, n2, if_false] at hu
+      obtain ⟨v, hv⟩ := h im u hu
+      exact ⟨v, by simp [hv]⟩
+
+/-- parameters are made up for exactly the images named, nothing else -/
+theorem ids_foldl (ps : List (String × String)) : ∀ s, Inv s → Paired s → ∀ k,
+    k ∈ (ps.foldl step s).params.map (·.1) ↔
+      k ∈ s.params.map (·.1) ∨ ∃ p ∈ ps, k = .samp p.2 ∨ k = .surf p.2 := by
+  induction ps with
+  | nil => intro s _ _ k; simp
+  | cons p t ih =>
+    intro s hi hp k
+    rw [List.foldl_cons, ih _ (inv_step s p hi) (paired_step s p hp)]
+    have key : k ∈ (step s p).params.map (·.1) ↔ k ∈ s.params.map (·.1) ∨ k = .samp p.2 ∨ k = .surf p.2 := by
+      unfold step
+      cases hg : s.scope.get (.samp p.2) with
+      | some u =>
+        have h1 := hi.scope_param _ _ hg
+        obtain ⟨v, hv⟩ := hp _ _ hg
+        constructor
+        · intro h; exact Or.inl h
+        · rintro (h | rfl | rfl)
+          · exact h
+          · exact List.mem_map.mpr ⟨_, h1, rfl⟩
+          · exact List.mem_map.mpr ⟨_, hv, rfl⟩
+      | none =>
+        simp only [List.map_append, List.map_cons, List.map_nil, List.mem_append, List.mem_cons,
+          List.mem_nil_iff, or_false]
+        constructor
+        · rintro (h | rfl | rfl)
+          · exact Or.inl h
+          · exact Or.inr (Or.inr rfl)
+          · exact Or.inr (Or.inl rfl)
+        · rintro (h | rfl | rfl)
+          · exact Or.inl h
+          · exact Or.inr (Or.inr rfl)
+          · exact Or.inr (Or.inl rfl)
+    rw [key]
+    simp only [List.mem_cons, exists_eq_or_imp]
+    constructor
+    · rintro ((h | h) | h)
+      · exact Or.inl h
+      · exact Or.inr (Or.inl h)
+      · exact Or.inr (Or.inr h)
+    · rintro (h | h | h)
+      · exact Or.inl (Or.inl h)
+      · exact Or.inl (Or.inr h)
+      · exact Or.inr h
+
+theorem ids_run (ps : List (String × String)) (k : PId) :
+    k ∈ (run ps).params.map (·.1) ↔ ∃ p ∈ ps, k = .samp p.2 ∨ k = .surf p.2 := by
+  have := ids_foldl ps init inv_init paired_init k
+  simpa [run, init] using this
+
+end Pyc.DirectTex
